@@ -1,7 +1,375 @@
-//! C34 — not implemented yet (see DESIGN.md section 4).
-use kit::Run;
-use serde_json::Value;
+//! C34 — JUMBF URIs and manifest labels parse back to their parts.
+//!
+//! S-inp, exhaustive over small-alphabet strings on the crate-private helpers (`c2pa::verif_hooks::label::*`, the
+//! `ManifestParts` formatter through `verif_hooks::manifest_parts_to_label`, `Claim::new`, `Claim::label_with_instance`,
+//! `Claim::assertion_label_from_link`).
+//!   * manifest labels: 3 GUIDs x every vendor string of length 0..=3 over a 12-symbol alphabet (+ 31- and 32-character vendors)
+//!     x versions {None,0,1,10,usize::MAX} x reasons {None,0,1,10,usize::MAX} (reason only with a version, as the formatter
+//!     emits it) for 2.x labels, the same vendors for 1.x labels; plus the labels `Claim::new` generates for every vendor.
+//!   * URIs: every manifest label x {manifest, signature, assertion, databox, credential} builders with a fixed set of box labels,
+//!     and every assertion label of length 1..=5 over an 8-symbol alphabet (with and without `__N`) x 12 manifest labels.
+//! Oracle: parse(format(parts)) == parts; every URI yields back the manifest label and the assertion/box label it was built
+//! from; relative/absolute conversions invert; label_with_instance/assertion_label_from_link invert for SDK assertion labels.
+//!
+//! Mutants caught (tools/mutant_run.sh C <diff> C34 quick):
+//!   /verif/mutants/C34-parts-len.diff   (manifest_label_to_parts: `parts.len() > 4` -> `> 5` when reading the version)
+//!   /verif/mutants/C34-relative-uri.diff (to_relative_uri keeps one path segment too many)
 
-pub fn run(_run: &Run, _replay: Option<&Value>) {
-    kit::ev::machinery("C34: check not implemented");
+use c2pa::verif_hooks::{label as L, manifest_parts_to_label, Claim};
+use kit::{par, Run};
+use serde_json::{json, Value};
+use std::sync::atomic::{AtomicU64, Ordering};
+
+const GUIDS: [&str; 3] = ["00000000-0000-4000-8000-000000000001", "f75ddc48-cdc8-4723-bcfe-77a8d68a5920", "ffffffff-ffff-4fff-bfff-ffffffffffff"];
+const VENDOR_ALPHABET: [char; 12] = ['a', 'c', 'u', 'r', 'n', 'Z', '0', '2', '9', '-', '_', '.'];
+const LABEL_ALPHABET: [char; 8] = ['a', 'c', '2', '.', '-', '_', 'v', '1'];
+const NUMS: [Option<usize>; 5] = [None, Some(0), Some(1), Some(10), Some(usize::MAX)];
+
+fn strings(alpha: &[char], max_len: usize) -> Vec<String> {
+    let mut out = vec![String::new()];
+    let mut level = vec![String::new()];
+    for _ in 0..max_len {
+        let mut next = vec![];
+        for s in &level {
+            for c in alpha {
+                let mut t = s.clone();
+                t.push(*c);
+                next.push(t);
+            }
+        }
+        out.extend(next.iter().cloned());
+        level = next;
+    }
+    out
+}
+
+#[derive(Clone, Debug, PartialEq)]
+struct Parts {
+    guid: String,
+    is_v1: bool,
+    cgi: Option<String>,
+    version: Option<usize>,
+    reason: Option<usize>,
+}
+
+impl Parts {
+    fn json(&self) -> Value {
+        json!({"guid": self.guid, "is_v1": self.is_v1, "cgi": self.cgi, "version": self.version.map(|v| v.to_string()), "reason": self.reason.map(|v| v.to_string())})
+    }
+    fn from_json(v: &Value) -> Parts {
+        Parts {
+            guid: v["guid"].as_str().unwrap_or("").into(),
+            is_v1: v["is_v1"].as_bool().unwrap_or(false),
+            cgi: v["cgi"].as_str().map(|s| s.to_string()),
+            version: v["version"].as_str().and_then(|s| s.parse().ok()),
+            reason: v["reason"].as_str().and_then(|s| s.parse().ok()),
+        }
+    }
+}
+
+fn parse(label: &str) -> Result<Option<Parts>, String> {
+    par::guard(|| L::manifest_label_to_parts(label).map(|(guid, is_v1, cgi, version, reason)| Parts { guid, is_v1, cgi, version, reason }))
+}
+
+/// class of a vendor string, for stable violation keys
+fn vendor_class(v: &Option<String>) -> String {
+    match v {
+        None => "none".into(),
+        Some(s) if s == "urn" => "literal-urn".into(),
+        Some(s) if s.len() >= 31 => format!("len{}", s.len()),
+        Some(s) => {
+            let mut c = String::new();
+            if s.chars().any(|x| x.is_ascii_alphabetic()) { c.push('A'); }
+            if s.chars().any(|x| x.is_ascii_digit()) { c.push('9'); }
+            for p in ['-', '_', '.'] {
+                if s.contains(p) { c.push(p); }
+            }
+            format!("chars[{c}]")
+        }
+    }
+}
+
+struct Cnt {
+    evals: AtomicU64,
+    labels: AtomicU64,
+    uris: AtomicU64,
+    nontrivial: AtomicU64,
+}
+
+fn bump(c: &AtomicU64, n: u64) {
+    c.fetch_add(n, Ordering::Relaxed);
+}
+
+/// parse(format(parts)) == parts
+fn check_parts(run: &Run, cnt: &Cnt, p: &Parts, verbose: bool) -> Option<String> {
+    let label = match par::guard(|| manifest_parts_to_label(&p.guid, p.is_v1, p.cgi.as_deref(), p.version, p.reason)) {
+        Ok(l) => l,
+        Err(e) => {
+            run.violation("manifest-label format panic", e, json!({"kind": "parts", "parts": p.json()}));
+            return None;
+        }
+    };
+    bump(&cnt.evals, 1);
+    bump(&cnt.labels, 1);
+    let back = parse(&label);
+    if verbose {
+        println!("parts {} -> label {label:?} -> parsed {back:?}", p.json());
+    }
+    let shape = format!("v1={} vendor={} version={} reason={}", p.is_v1, vendor_class(&p.cgi), p.version.map(|v| if v == usize::MAX { "max".to_string() } else { v.to_string() }).unwrap_or("none".into()),
+        p.reason.map(|v| if v == usize::MAX { "max".to_string() } else { v.to_string() }).unwrap_or("none".into()));
+    match back {
+        Ok(Some(b)) if b == *p => {}
+        Ok(Some(b)) => run.violation(format!("manifest-label parts differ {shape}"), format!("label {label:?} built from {} parses to {}", p.json(), b.json()), json!({"kind": "parts", "parts": p.json()})),
+        Ok(None) => run.violation(format!("manifest-label not parseable {shape}"), format!("label {label:?} built from {} does not parse", p.json()), json!({"kind": "parts", "parts": p.json()})),
+        Err(e) => run.violation(format!("manifest-label parse panic {shape}"), format!("label {label:?}: {e}"), json!({"kind": "parts", "parts": p.json()})),
+    }
+    // the parser also accepts the label inside a manifest URI
+    let uri = L::to_manifest_uri(&label);
+    bump(&cnt.evals, 1);
+    match parse(&uri) {
+        Ok(Some(b)) if b == *p => {}
+        other => run.violation(format!("manifest-uri parts differ {shape}"), format!("URI {uri:?} built from {} parses to {other:?}", p.json()), json!({"kind": "parts", "parts": p.json()})),
+    }
+    Some(label)
+}
+
+/// every URI builder yields back what it was built from
+fn check_uris(run: &Run, cnt: &Cnt, m: &str, boxes: &[String], verbose: bool) {
+    let case = |b: &str| json!({"kind": "uri", "manifest": m, "box": b});
+    let mut n = 0u64;
+    let mut expect = |what: &str, got: Option<String>, want: Option<&str>, uri: &str, b: &str| {
+        n += 1;
+        if verbose {
+            println!("  {what}: {uri:?} -> {got:?} (want {want:?})");
+        }
+        if got.as_deref() != want {
+            let mclass = if m.starts_with("urn:c2pa:") { "v2" } else if m.starts_with("urn:uuid:") { "v1" } else { "v1-vendor" };
+            run.violation(format!("uri {what} manifest={mclass} box-shape={}", box_shape(b)), format!("{what}: URI {uri:?} built from manifest {m:?} and box {b:?} gives {got:?}, expected {want:?}"), case(b));
+        }
+    };
+    let g = |f: &dyn Fn() -> Option<String>| par::guard(f).unwrap_or_else(|p| Some(format!("PANIC {p}")));
+    let mu = L::to_manifest_uri(m);
+    expect("manifest_label_from_uri(manifest-uri)", g(&|| L::manifest_label_from_uri(&mu)), Some(m), &mu, "");
+    let su = L::to_signature_uri(m);
+    expect("manifest_label_from_uri(signature-uri)", g(&|| L::manifest_label_from_uri(&su)), Some(m), &su, "c2pa.signature");
+    expect("box_name_from_uri(signature-uri)", g(&|| L::box_name_from_uri(&su)), Some("c2pa.signature"), &su, "c2pa.signature");
+    for b in boxes {
+        let au = L::to_assertion_uri(m, b);
+        expect("manifest_label_from_uri(assertion-uri)", g(&|| L::manifest_label_from_uri(&au)), Some(m), &au, b);
+        expect("assertion_label_from_uri(assertion-uri)", g(&|| L::assertion_label_from_uri(&au)), Some(b), &au, b);
+        expect("box_name_from_uri(assertion-uri)", g(&|| L::box_name_from_uri(&au)), Some(b), &au, b);
+        let rel = par::guard(|| L::to_relative_uri(&au)).unwrap_or_else(|p| format!("PANIC {p}"));
+        let want_rel = format!("self#jumbf=c2pa.assertions/{b}");
+        expect("to_relative_uri(assertion-uri)", Some(rel.clone()), Some(&want_rel), &au, b);
+        expect("assertion_label_from_uri(relative)", g(&|| L::assertion_label_from_uri(&want_rel)), Some(b), &want_rel, b);
+        expect("to_absolute_uri(relative)", g(&|| Some(L::to_absolute_uri(m, &want_rel))), Some(&au), &want_rel, b);
+        expect("to_absolute_uri(absolute)", g(&|| Some(L::to_absolute_uri(m, &au))), Some(&au), &au, b);
+        let du = L::to_databox_uri(m, b);
+        expect("manifest_label_from_uri(databox-uri)", g(&|| L::manifest_label_from_uri(&du)), Some(m), &du, b);
+        expect("assertion_label_from_uri(databox-uri)", g(&|| L::assertion_label_from_uri(&du)), Some(b), &du, b);
+        expect("box_name_from_uri(databox-uri)", g(&|| L::box_name_from_uri(&du)), Some(b), &du, b);
+        let cu = L::to_verifiable_credential_uri(m, b);
+        expect("manifest_label_from_uri(credential-uri)", g(&|| L::manifest_label_from_uri(&cu)), Some(m), &cu, b);
+        expect("box_name_from_uri(credential-uri)", g(&|| L::box_name_from_uri(&cu)), Some(b), &cu, b);
+    }
+    bump(&cnt.evals, n);
+    bump(&cnt.uris, 2 + 4 * boxes.len() as u64);
+}
+
+fn box_shape(b: &str) -> String {
+    let mut s = String::new();
+    if b.contains("__") { s.push_str("instance,"); }
+    if b.starts_with('.') || b.ends_with('.') { s.push_str("edge-dot,"); }
+    if b.starts_with('_') || b.ends_with('_') { s.push_str("edge-underscore,"); }
+    if b.starts_with("c2pa.") { s.push_str("c2pa,"); }
+    if s.is_empty() { "plain".into() } else { s.trim_end_matches(',').to_string() }
+}
+
+/// label_with_instance / assertion_label_from_link invert for SDK assertion labels
+fn check_instance(run: &Run, cnt: &Cnt, m: &str, base: &str, inst: usize, verbose: bool) {
+    let label = match par::guard(|| Claim::label_with_instance(base, inst)) {
+        Ok(l) => l,
+        Err(p) => {
+            run.violation("label_with_instance panic", format!("{base:?} {inst}: {p}"), json!({"kind": "instance", "manifest": m, "base": base, "instance": inst.to_string()}));
+            return;
+        }
+    };
+    let uri = L::to_assertion_uri(m, &label);
+    let back = par::guard(|| Claim::assertion_label_from_link(&uri));
+    let back_rel = par::guard(|| Claim::assertion_label_from_link(&L::to_relative_uri(&uri)));
+    let lab = par::guard(|| L::assertion_label_from_uri(&uri));
+    bump(&cnt.evals, 3);
+    if verbose {
+        println!("base {base:?} instance {inst} -> label {label:?} -> uri {uri:?} -> from_link {back:?}, from relative link {back_rel:?}, assertion_label_from_uri {lab:?}");
+    }
+    let kind = if base.starts_with("c2pa.thumbnail.ingredient") { "ingredient-thumbnail" } else if base.contains(".v") { "versioned" } else { "plain" };
+    let ikind = if inst == 0 { "0".to_string() } else if inst == usize::MAX { "max".into() } else { "n".into() };
+    for (what, got) in [("absolute", back), ("relative", back_rel)] {
+        if got != Ok((base.to_string(), inst)) {
+            run.violation(format!("assertion-instance roundtrip kind={kind} instance={ikind} link={what}"), format!("label_with_instance({base:?},{inst}) = {label:?}; assertion_label_from_link gives {got:?}"),
+                json!({"kind": "instance", "manifest": m, "base": base, "instance": inst.to_string()}));
+        }
+    }
+    if lab != Ok(Some(label.clone())) {
+        run.violation(format!("assertion-instance uri-label kind={kind} instance={ikind}"), format!("assertion_label_from_uri({uri:?}) = {lab:?}, expected {label:?}"),
+            json!({"kind": "instance", "manifest": m, "base": base, "instance": inst.to_string()}));
+    }
+}
+
+pub fn run(run: &Run, replay: Option<&Value>) {
+    run.rule(
+        "every (GUID, vendor, version, reason) tuple of the stated finite domain is formatted and parsed back; every URI builder is inverted for every manifest label; \
+         non-trivial = manifest-label tuples that carry a vendor or a version (the label has optional segments the parser must attribute correctly) and assertion labels carrying an instance suffix; \
+         each tuple is enumerated once.",
+    );
+    run.assume("vendor strings are 1..=32 characters from {letters, digits, '-', '_', '.'} (no ':' '/' '=' or whitespace, which the label syntax reserves); Claim::new lower-cases the vendor, so its round trip is compared after lower-casing");
+    run.assume("a reason is only formatted together with a version (the formatter has no syntax for a reason alone); 1.x labels carry neither");
+    run.assume("assertion/box labels do not contain '/', '=' ; exhaustive labels are used verbatim as box names, the label_with_instance round trip is checked for the SDK's own assertion labels only");
+    let cnt = Cnt { evals: AtomicU64::new(0), labels: AtomicU64::new(0), uris: AtomicU64::new(0), nontrivial: AtomicU64::new(0) };
+
+    let fixed_boxes: Vec<String> = ["c2pa.actions", "c2pa.actions.v2", "c2pa.ingredient.v3__2", "c2pa.hash.data", "c2pa.thumbnail.ingredient__1.jpeg", "com.example.custom-thing_1"].iter().map(|s| s.to_string()).collect();
+
+    if let Some(c) = replay {
+        match c["kind"].as_str() {
+            Some("parts") => {
+                let p = Parts::from_json(&c["parts"]);
+                check_parts(run, &cnt, &p, true);
+            }
+            Some("claim-new") => check_claim_new(run, &cnt, c["vendor"].as_str(), c["version"].as_u64().unwrap_or(2) as usize, true),
+            Some("uri") => check_uris(run, &cnt, c["manifest"].as_str().unwrap_or(""), &[c["box"].as_str().unwrap_or("").to_string()], true),
+            Some("instance") => check_instance(run, &cnt, c["manifest"].as_str().unwrap_or(""), c["base"].as_str().unwrap_or(""), c["instance"].as_str().and_then(|s| s.parse().ok()).unwrap_or(0), true),
+            _ => kit::ev::machinery("C34: unknown replay kind"),
+        }
+        run.evals(cnt.evals.load(Ordering::Relaxed));
+        return;
+    }
+
+    // ---- vendors ----------------------------------------------------------------------------------
+    let mut vendors: Vec<Option<String>> = strings(&VENDOR_ALPHABET, 3).into_iter().map(|s| if s.is_empty() { None } else { Some(s) }).collect();
+    vendors.push(Some("a".repeat(31)));
+    vendors.push(Some("vendor-with.32_chars.0123456789ab".chars().take(32).collect()));
+    if vendors.last().unwrap().as_ref().unwrap().len() != 32 {
+        kit::ev::machinery("C34: 32-character vendor is not 32 characters");
+    }
+
+    // ---- 1. parts -> label -> parts ---------------------------------------------------------------
+    let mut tuples: Vec<Parts> = vec![];
+    for g in GUIDS {
+        for v in &vendors {
+            tuples.push(Parts { guid: g.into(), is_v1: true, cgi: v.clone(), version: None, reason: None });
+            for ver in NUMS {
+                for rea in NUMS {
+                    if ver.is_none() && rea.is_some() {
+                        continue;
+                    }
+                    tuples.push(Parts { guid: g.into(), is_v1: false, cgi: v.clone(), version: ver, reason: rea });
+                }
+            }
+        }
+    }
+    run.space(&format!("manifest label tuples: 3 GUIDs x {} vendors x (1.x + 2.x with 21 version/reason shapes)", vendors.len()), tuples.len() as u64, true);
+    let labels: std::sync::Mutex<Vec<(usize, String)>> = std::sync::Mutex::new(vec![]);
+    par::for_each_index(tuples.len() as u64, |i| {
+        let p = &tuples[i as usize];
+        if p.cgi.is_some() || p.version.is_some() {
+            bump(&cnt.nontrivial, 1);
+        }
+        if let Some(l) = check_parts(run, &cnt, p, false) {
+            labels.lock().unwrap().push((i as usize, l));
+        }
+    });
+    let mut labels = labels.into_inner().unwrap();
+    labels.sort();
+    let labels: Vec<String> = labels.into_iter().map(|x| x.1).collect();
+    run.sample(json!({"parts": tuples[5].json(), "label": labels.get(5)}));
+    run.sample(json!({"parts": tuples[tuples.len() - 1].json(), "label": labels.last()}));
+
+    // ---- 2. Claim::new labels ---------------------------------------------------------------------
+    let cn: Vec<(Option<String>, usize)> = vendors.iter().flat_map(|v| [(v.clone(), 1usize), (v.clone(), 2usize)]).collect();
+    run.space("Claim::new(vendor, claim version 1|2) labels", cn.len() as u64, true);
+    par::for_each(&cn, |(v, ver)| {
+        if v.is_some() {
+            bump(&cnt.nontrivial, 1);
+        }
+        check_claim_new(run, &cnt, v.as_deref(), *ver, false)
+    });
+
+    // ---- 3. URIs: every manifest label x fixed boxes ----------------------------------------------
+    run.space("URI builders: every generated manifest label x 6 box labels x {manifest, signature, assertion, databox, credential, relative, absolute}", labels.len() as u64, true);
+    par::for_each(&labels, |m| check_uris(run, &cnt, m, &fixed_boxes, false));
+
+    // ---- 4. URIs: every small-alphabet box label x 12 manifest labels -----------------------------
+    let pick: Vec<String> = {
+        let n = labels.len();
+        let mut v: Vec<String> = (0..12).map(|i| labels[i * (n - 1) / 11].clone()).collect();
+        v.dedup();
+        v
+    };
+    let max_len = run.tier.pick(4usize, 5usize);
+    let mut boxes: Vec<String> = strings(&LABEL_ALPHABET, max_len).into_iter().filter(|s| !s.is_empty()).collect();
+    let with_inst: Vec<String> = boxes.iter().filter(|s| s.len() <= 3).flat_map(|s| [format!("{s}__1"), format!("{s}__10")]).collect();
+    boxes.extend(with_inst);
+    run.space(&format!("URI builders: every box label of length 1..={max_len} over {{a,c,2,.,-,_,v,1}} (+ __1/__10 variants of those up to length 3) x {} manifest labels", pick.len()), (boxes.len() * pick.len()) as u64, true);
+    par::for_each_index(boxes.len() as u64, |i| {
+        let b = &boxes[i as usize];
+        if b.contains("__") {
+            bump(&cnt.nontrivial, 1);
+        }
+        for m in &pick {
+            check_uris(run, &cnt, m, std::slice::from_ref(b), false);
+        }
+    });
+
+    // ---- 5. instance suffixes on the SDK's assertion labels ---------------------------------------
+    let bases = ["c2pa.actions", "c2pa.actions.v2", "c2pa.hash.data", "c2pa.hash.bmff.v3", "c2pa.hash.boxes", "c2pa.ingredient", "c2pa.ingredient.v2", "c2pa.ingredient.v3", "c2pa.thumbnail.claim.jpeg",
+        "c2pa.thumbnail.claim", "c2pa.thumbnail.ingredient.jpeg", "c2pa.thumbnail.ingredient.png", "c2pa.thumbnail.ingredient", "c2pa.metadata", "c2pa.soft-binding", "c2pa.time-stamp", "c2pa.certificate-status",
+        "c2pa.asset-ref", "c2pa.asset-type", "c2pa.embedded-data", "c2pa.depthmap.GDepth", "stds.schema-org.CreativeWork", "stds.exif", "cawg.identity", "cawg.metadata", "cawg.training-mining", "com.example.custom", "com.example.a_b.v1", "font.info"];
+    let insts = [0usize, 1, 2, 9, 10, 99, 100, usize::MAX];
+    run.space("label_with_instance/assertion_label_from_link: 29 SDK assertion labels x 8 instances x 12 manifest labels", (bases.len() * insts.len() * pick.len()) as u64, true);
+    for b in bases {
+        for i in insts {
+            for m in &pick {
+                if i > 0 {
+                    bump(&cnt.nontrivial, 1);
+                }
+                check_instance(run, &cnt, m, b, i, false);
+            }
+        }
+    }
+
+    run.evals(cnt.evals.load(Ordering::Relaxed));
+    run.nontrivial_n(cnt.nontrivial.load(Ordering::Relaxed));
+    run.outcome_n("manifest labels formatted and parsed", cnt.labels.load(Ordering::Relaxed));
+    run.outcome_n("URIs built and taken apart", cnt.uris.load(Ordering::Relaxed));
+    run.extra("vendor_strings", json!(vendors.len()));
+    run.extra("box_labels", json!(boxes.len()));
+}
+
+fn check_claim_new(run: &Run, cnt: &Cnt, vendor: Option<&str>, claim_version: usize, verbose: bool) {
+    let case = json!({"kind": "claim-new", "vendor": vendor, "version": claim_version});
+    let label = match par::guard(|| Claim::new("verif/1.0", vendor, claim_version).label().to_string()) {
+        Ok(l) => l,
+        Err(p) => {
+            run.violation("claim-new panic", p, case);
+            return;
+        }
+    };
+    bump(&cnt.evals, 1);
+    bump(&cnt.labels, 1);
+    let back = parse(&label);
+    if verbose {
+        println!("Claim::new(vendor {vendor:?}, claim version {claim_version}) -> label {label:?} -> parsed {back:?}");
+    }
+    let vclass = vendor_class(&vendor.map(|s| s.to_string()));
+    let want_cgi = vendor.map(|s| s.to_lowercase());
+    match back {
+        Ok(Some(p)) => {
+            let guid_ok = p.guid.len() == 36 && label.contains(&p.guid) && p.guid.chars().all(|c| c.is_ascii_hexdigit() || c == '-');
+            if p.is_v1 != (claim_version == 1) || p.cgi != want_cgi || p.version.is_some() || p.reason.is_some() || !guid_ok {
+                run.violation(format!("claim-new parts differ claim_version={claim_version} vendor={vclass}"), format!("label {label:?} generated for vendor {vendor:?} parses to {}", p.json()), case);
+            }
+        }
+        Ok(None) => run.violation(format!("claim-new label not parseable claim_version={claim_version} vendor={vclass}"), format!("label {label:?} generated by Claim::new for vendor {vendor:?} does not parse"), case),
+        Err(e) => run.violation(format!("claim-new parse panic claim_version={claim_version} vendor={vclass}"), format!("label {label:?}: {e}"), case),
+    }
 }
